@@ -179,30 +179,65 @@ Qed.
 Lemma pow256_4_gt1 : 1 < pow256 4.
 Proof. vm_compute. reflexivity. Qed.
 
+Lemma gfr_inv reg st f : RInv reg st -> f < pow256 4 -> RInv reg (gfr f st).
+Proof.
+  intros I Hf. unfold gfr. destruct (get_frame_roots f st) as [[st' rr] cr] eqn:G. cbn [fst].
+  exact (proj2 (proj2 (get_frame_roots_spec reg st f _ _ _ I Hf G))).
+Qed.
+
+Lemma small_frames : 1 < pow256 4 /\ 2 < pow256 4 /\ 3 < pow256 4.
+Proof. repeat split; vm_compute; reflexivity. Qed.
+
+Lemma boot_reads_inv reg st : RInv reg st -> RInv reg (boot_reads st).
+Proof.
+  intros I. destruct small_frames as (F1 & F2 & F3). unfold boot_reads.
+  destruct (get_frame_roots 1 st) as [[st1 r1] c1] eqn:G1.
+  pose proof (proj2 (proj2 (get_frame_roots_spec reg st 1 _ _ _ I F1 G1))) as I1.
+  destruct r1 as [|x1 r1]; [exact I1|].
+  destruct (get_frame_roots 2 st1) as [[st2 r2] c2] eqn:G2.
+  pose proof (proj2 (proj2 (get_frame_roots_spec reg st1 2 _ _ _ I1 F2 G2))) as I2.
+  destruct r2 as [|x2 r2]; [exact I2|].
+  assert (I2' : RInv reg (fold_left (fun s _ => gfr 1 s) (x2 :: r2) st2)).
+  { clear G2. generalize (x2 :: r2) as l. intros l. revert st2 I2. induction l as [|y l IH]; intros st2 I2; cbn [fold_left]; [exact I2|].
+    apply IH. apply gfr_inv; [exact I2 | exact F1]. }
+  destruct (get_frame_roots 3 _) as [[st3 r3] c3] eqn:G3.
+  pose proof (proj2 (proj2 (get_frame_roots_spec reg _ 3 _ _ _ I2' F3 G3))) as I3.
+  destruct r3 as [|x3 r3]; [exact I3 | apply gfr_inv; [exact I3 | exact F2]].
+Qed.
+
 Lemma init_inv num frames st : init num frames = Some st -> RInv [] st.
 Proof.
-  unfold init. destruct (new num frames) as [c|] eqn:E; [|discriminate].
-  destruct (get_frame_roots 1 (open_epoch (mkR [] c))) as [[st1 rr] cr] eqn:G. cbn [fst]. intros [= <-].
-  exact (proj2 (proj2 (get_frame_roots_spec [] _ 1 _ _ _ (open_epoch_inv _) pow256_4_gt1 G))).
+  unfold init. destruct (new num frames) as [c|] eqn:E; [|discriminate]. intros [= <-].
+  apply boot_reads_inv. apply open_epoch_inv.
+Qed.
+
+Lemma restart_inv reg st : RInv reg st -> RInv reg (restart st).
+Proof.
+  intros (Hdb & _ & Hwf). unfold restart. apply boot_reads_inv.
+  split; [exact Hdb | split; [apply empty_cache_coh; reflexivity | exact Hwf]].
 Qed.
 
 (* ---------- histories ---------- *)
 Definition wf_op (o : rop) : Prop :=
   match o with
-  | RAdd spf frame creator id => frame < pow256 4 /\ creator < pow256 4 /\ length id = 32%nat
+  | RAdd spf frame creator id =>
+      (* idx.Frame is uint32 and AddRoot counts `for f := spf+1; f <= frame; f++`: with
+         frame = MaxUint32 the loop never ends, with spf = MaxUint32 spf+1 wraps to 0 *)
+      spf < pow256 4 - 1 /\ frame < pow256 4 - 1 /\ creator < pow256 4 /\ length id = 32%nat
   | RGet f => f < pow256 4
-  | RReset => True
+  | RReset | RRestart => True
   end.
 
 Lemma rstep_inv reg st o :
   RInv reg st -> wf_op o -> RInv (registered_from reg [o]) (fst (rstep st o)).
 Proof.
-  intros I Hw. destruct o as [spf frame creator id|f|]; cbn [rstep registered_from fst].
+  intros I Hw. destruct o as [spf frame creator id|f| |]; cbn [rstep registered_from fst].
   - unfold add_root. apply add_root_fold_inv; [exact I|]. intros f Hf. apply frames_between_in in Hf.
-    destruct Hw as (H1 & H2 & H3). unfold wf_root. cbn [r_frame r_val r_id]. repeat split; [lia | exact H2 | exact H3].
+    destruct Hw as (_ & H1 & H2 & H3). unfold wf_root. cbn [r_frame r_val r_id]. repeat split; [lia | exact H2 | exact H3].
   - destruct (get_frame_roots f st) as [[st' rr] cr] eqn:G. cbn [fst].
     exact (proj2 (proj2 (get_frame_roots_spec reg st f _ _ _ I Hw G))).
   - apply open_epoch_inv.
+  - apply restart_inv. exact I.
 Qed.
 
 Lemma registered_from_cons acc o ops : registered_from acc (o :: ops) = registered_from (registered_from acc [o]) ops.
@@ -262,7 +297,7 @@ Lemma registered_from_origin ops : forall acc r,
                 r = mkRoot (r_frame r) creator id /\ spf < r_frame r /\ r_frame r <= frame.
 Proof.
   induction ops as [|o ops IH]; intros acc r H; [left; exact H|].
-  destruct o as [spf frame creator id|f|]; cbn [registered_from] in H.
+  destruct o as [spf frame creator id|f| |]; cbn [registered_from] in H.
   - destruct (IH _ _ H) as [Ha|(s & fr & c & i & Hin & Hr)].
     + apply in_app_iff in Ha. destruct Ha as [Ha|Ha]; [left; exact Ha | right].
       apply in_map_iff in Ha. destruct Ha as (f & <- & Hf). apply frames_between_in in Hf.
@@ -272,6 +307,52 @@ Proof.
     exists s, fr, c, i. split; [right; exact Hin | exact Hr].
   - destruct (IH _ _ H) as [[]|(s & fr & c & i & Hin & Hr)]. right.
     exists s, fr, c, i. split; [right; exact Hin | exact Hr].
+  - destruct (IH _ _ H) as [Ha|(s & fr & c & i & Hin & Hr)]; [left; exact Ha | right].
+    exists s, fr, c, i. split; [right; exact Hin | exact Hr].
+Qed.
+
+(* what is registered, said without frames_between: a root (f, creator, id) is registered for
+   frame f iff some AddRoot(spf, event{frame, creator, id}) of the CURRENT epoch has
+   spf < f <= frame *)
+Definition added_in (l : list rop) (r : root) : Prop :=
+  exists spf frame, In (RAdd spf frame (r_val r) (r_id r)) l /\ spf < r_frame r /\ r_frame r <= frame.
+
+Lemma root_eta r f c i : r = mkRoot f c i <-> r_frame r = f /\ r_val r = c /\ r_id r = i.
+Proof. destruct r as [f' c' i']. cbn [r_frame r_val r_id]. split; [intros [= -> -> ->]; tauto | intros (-> & -> & ->); reflexivity]. Qed.
+
+Lemma registered_from_current ops : forall acc accops,
+  (forall r, In r acc <-> added_in accops r) ->
+  forall r, In r (registered_from acc ops) <-> added_in (current_epoch_from accops ops) r.
+Proof.
+  induction ops as [|o ops IH]; intros acc accops H r; [exact (H r)|].
+  assert (Hsame : forall o', (forall s f c i, o' <> RAdd s f c i) ->
+            forall r0, In r0 acc <-> added_in (accops ++ [o']) r0).
+  { intros o' Hno r0. rewrite (H r0). unfold added_in. split; intros (s & f & Hin & Hlt).
+    - exists s, f. split; [apply in_or_app; left; exact Hin | exact Hlt].
+    - exists s, f. split; [|exact Hlt]. apply in_app_iff in Hin. destruct Hin as [Hin|[E|[]]]; [exact Hin | exfalso; exact (Hno _ _ _ _ E)]. }
+  destruct o as [spf frame creator id|f| |]; cbn [registered_from current_epoch_from].
+  - apply IH. intros r0. rewrite in_app_iff, (H r0), in_map_iff. unfold added_in. split.
+    + intros [(s & f & Hin & Hlt)|(f & E & Hf)].
+      * exists s, f. split; [apply in_or_app; left; exact Hin | exact Hlt].
+      * apply frames_between_in in Hf. symmetry in E. apply root_eta in E. destruct E as (E1 & E2 & E3).
+        exists spf, frame. rewrite E1, E2, E3. split; [apply in_or_app; right; left; reflexivity | exact Hf].
+    + intros (s & f & Hin & Hlt). apply in_app_iff in Hin. destruct Hin as [Hin|[E|[]]].
+      * left. exists s, f. tauto.
+      * injection E as -> -> E2 E3. right. exists (r_frame r0). split; [|apply frames_between_in; exact Hlt].
+        symmetry. apply root_eta. repeat split; congruence.
+  - apply IH. apply Hsame. discriminate.
+  - apply IH. intros r0. split; [intros [] | intros (s & f & [] & _)].
+  - apply IH. apply Hsame. discriminate.
+Qed.
+
+Theorem registered_frames ops f creator id :
+  In (mkRoot f creator id) (registered ops f) <->
+  exists spf frame, In (RAdd spf frame creator id) (current_epoch ops) /\ spf < f /\ f <= frame.
+Proof.
+  rewrite registered_in. unfold registered_all, current_epoch.
+  rewrite (registered_from_current ops [] [] (fun r => conj (fun H : In r [] => match H with end)
+             (fun H : added_in [] r => match H with ex_intro _ _ (ex_intro _ _ (conj Hin _)) => match Hin with end end))).
+  unfold added_in. cbn [r_frame r_val r_id]. split; [intros [H _]; exact H | intros H; split; [exact H | reflexivity]].
 Qed.
 
 Theorem roots_carry_slot num frames st0 ops f st' rr cr :
